@@ -285,6 +285,14 @@ class Trimesh(Geometry3D):
             # being returned so there is no danger of inconsistent dimensions
             self.remove_infinite_values()
             self.merge_vertices(merge_tex=merge_tex, merge_norm=merge_norm)
+            # normals that no longer have one row per face or per vertex
+            # (everything was removed, nothing re-installed them) are stale
+            for key, count in (
+                ("face_normals", len(self.faces)),
+                ("vertex_normals", len(self.vertices)),
+            ):
+                if key in keep and len(self._cache.cache.get(key, ())) not in (0, count):
+                    keep = keep.difference({key})
             self._cache.clear(exclude=keep)
 
         self.metadata["processed"] = True
